@@ -50,6 +50,48 @@ Definition ckp (vs : list Pt) (expected : option (list Rect4)) : bool :=
   | _, _ => false
   end.
 
+(* the same for decimal inputs: each of the four numbers within [tol] of the model's exact value *)
+Definition rect4_close (tol : Qc) (a b : Rect4) : bool :=
+  let '(a1, a2, a3, a4) := a in let '(b1, b2, b3, b4) := b in
+  Qcleb (Qcabs (a1 - b1)) tol && Qcleb (Qcabs (a2 - b2)) tol &&
+  Qcleb (Qcabs (a3 - b3)) tol && Qcleb (Qcabs (a4 - b4)) tol.
+
+Definition ckpc (tol : Qc) (vs : list Pt) (expected : option (list Rect4)) : bool :=
+  match strop_decomposition_all vs, expected with
+  | None, None => true
+  | Some alls, Some e => existsb (fun l => leqb (rect4_close tol) l e) alls
+  | _, _ => false
+  end.
+
 (* is_point_inside_polygon on a list of points *)
 Definition cki (vs : list Pt) (pts : list (Pt * bool)) : bool :=
   forallb (fun pb => Bool.eqb (point_inside (fst pb) vs) (snd pb)) pts.
+
+(* ---------- matrices given as text (code points) ---------- *)
+From Coq Require Import NArith.
+From FrameModel Require Import Strop.Text.
+
+Definition ckt (text : list N) (expected : option (list (list SRect))) (isb : bool) : bool :=
+  match strop_text text, expected with
+  | None, None => true
+  | Some l, Some e => leqb (leqb srect_eqb) (map rectangles l) e
+                      && Bool.eqb (match l with [] => false | _ => true end) isb
+  | _, _ => false
+  end.
+
+(* ---------- vertex lists with their input form ---------- *)
+From FrameModel Require Import Strop.PolygonForms.
+Definition vp := VPoint.
+Definition vr := VRow.
+Definition ckf (vs : list Vertex) (expected : option (list Rect4)) : bool :=
+  match decomposition_of_forms vs, expected with
+  | None, None => true
+  | Some alls, Some e => existsb (fun l => leqb rect4_eqb l e) alls
+  | _, _ => false
+  end.
+Definition ckfc (tol : Qc) (vs : list Vertex) (expected : option (list Rect4)) : bool :=
+  match decomposition_of_forms vs, expected with
+  | None, None => true
+  | Some alls, Some e => existsb (fun l => leqb (rect4_close tol) l e) alls
+  | _, _ => false
+  end.
